@@ -52,6 +52,7 @@ def build(repo, file=FILE, name=NAME):
     def extra_items(u):
         u.items(file, "pub struct MessageOptionAdapter<'a>", "pub struct MessageOption<'a>", "impl<'a> Iterator for MessageOptionAdapter<'a>",
                 "impl coap_message::MessageOption for MessageOption<'_>", 'impl ReadableMessage for Packet', 'impl MinimalWritableMessage for Packet')
+        u.impl_fns(file, 'impl MutableWritableMessage for Packet', ['available_space', 'payload_mut_with_len', 'truncate'])
     acc.populate(u, extra_items=extra_items, extra_spec=SPEC)
     # ---- R39: trait impls read as inherent impls
     u.rule('R39:impl-Iterator', r"impl<'a> Iterator for MessageOptionAdapter<'a> \{\s*type Item = MessageOption<'a>;", "impl<'a> MessageOptionAdapter<'a> {", 1)
@@ -59,12 +60,13 @@ def build(repo, file=FILE, name=NAME):
     u.rule('R39:impl-MessageOption', r"impl coap_message::MessageOption for MessageOption<'_> \{", "impl MessageOption<'_> {", 1)
     u.rule('R39:impl-Readable', r'impl ReadableMessage for Packet \{', 'impl Packet {', 1)
     u.rule('R39:impl-Writable', r'impl MinimalWritableMessage for Packet \{', 'impl Packet {', 1)
+    u.rule('R39:impl-Mutable', r'impl MutableWritableMessage for Packet \{', 'impl Packet {', 1)
     u.rule('R39:assoc-types', r"(?m)^\s*type (?:Code|OptionNumber|AddOptionError|SetPayloadError|UnionError|MessageOption<'a>|OptionsIter<'a>) = [^;]*;\n", '', (4, 8))
     u.rule('R39:Self::Code', r'Self::Code', 'MessageClass', (2, 2))
     u.rule('R39:Self::OptionsIter', r"Self::OptionsIter<'_>", "MessageOptionAdapter<'_>", 1)
     u.rule('R39:Self::OptionNumber', r'Self::OptionNumber', 'CoapOption', (1, 2))
     u.rule('R39:Self::Errors', r'Self::(?:AddOptionError|SetPayloadError)', 'core::convert::Infallible', (0, 4))
-    u.rule('R39:method-names', r'(?m)^(\s*)fn (code|payload|options|set_code|add_option|set_payload|number|value)\(', r'\1pub fn cm_\2(', 8)
+    u.rule('R39:method-names', r'(?m)^(\s*)fn (code|payload|options|set_code|add_option|set_payload|number|value|available_space|payload_mut_with_len|truncate)\(', r'\1pub fn cm_\2(', 11)
     u.rule('R1:linked_list-paths', r'alloc::collections::linked_list::(?:Iter|LinkedList|VecDeque)', lambda m: 'std::collections::vec_deque::Iter' if m.group(0).endswith('Iter') else 'VecDeque', 2)
     u.rule('R0:alloc-path', r'alloc::collections::btree_map::Iter', 'std::collections::btree_map::Iter', 1)
     u.rule('R5:slice-into', r'(?<![\w.])(data|payload)\.into\(\)', r'slice_into_vec(\1)', 2)
@@ -90,6 +92,8 @@ def build(repo, file=FILE, name=NAME):
     u.contract((P, 'cm_set_payload'), '''        ensures final(self).payload@ == payload@, final(self).header == old(self).header, final(self).token == old(self).token, final(self).options == old(self).options''', props=PROPS)
     u.contract((P, 'cm_add_option'), '''        ensures opts_view(final(self).options) == push_opt(opts_view(old(self).options), u16_of_option(option), data@),
             same_but_options(*final(self), *old(self))''', props=PROPS)
+    u.contract((P, 'cm_truncate'), '''        ensures final(self).payload@ == (if length <= old(self).payload@.len() { old(self).payload@.take(length as int) } else { old(self).payload@ }),
+            final(self).header == old(self).header, final(self).token == old(self).token, final(self).options == old(self).options''', props=PROPS)
     u.contract((P, 'cm_options'), '''        ensures adapter_ok(r), r.head is None,
             // every value of every option, grouped by number in ascending number order, values in their stored order
             pending(r) == flat_entries(r.raw_iter.remaining()),
